@@ -186,6 +186,26 @@ func F4(o Opts, emit func(string, *ex.E) bool) bool {
 			}
 		}
 	}
+	// chains of conditionals (the operator is right-associative: p ? a : q ? b : c is
+	// p ? a : (q ? b : c)) for every combination of true / false conditions, and the
+	// two groupings that need parentheses
+	bools := []*ex.E{ex.Var("bt"), ex.Var("bf"), ex.Kw("true"), ex.Kw("false"), ex.Bin(">", ex.Var("two"), ex.Num("1"))}
+	x, y, z := ex.Var("two"), ex.Var("sa"), ex.Var("half")
+	for _, p := range bools {
+		for _, q := range bools {
+			chain := []*ex.E{
+				ex.Cond(p, x, ex.Cond(q, y, z)),
+				ex.Cond(ex.Cond(p, q, p), x, z),
+				ex.Cond(p, ex.Cond(q, x, y), z),
+				ex.Cond(p, x, ex.Cond(q, y, ex.Cond(p, z, x))),
+			}
+			for _, cs := range chain {
+				if !emit("F4-precedence", cs) {
+					return false
+				}
+			}
+		}
+	}
 	return true
 }
 
